@@ -316,8 +316,60 @@ def cbmc_cmd(obl, gb, extra=()):
     return cmd
 
 
+def run_callgraph(pid, obl, tier):
+    """Static obligation on the compiler's IR (NOT a solver query, labelled as
+    such in evidence): link the listed real sources into one goto binary,
+    compute the call graph reachable from main and require that no forbidden
+    function is reachable except through explicitly allowed edges."""
+    import glob as _glob
+    name = obl["name"]
+    wdir = os.path.join(BUILD, pid, sanitize(name))
+    shutil.rmtree(wdir, ignore_errors=True)
+    os.makedirs(wdir)
+    res = {"name": name, "status": "error", "violations": [], "unwind": [], "reach_ok": [], "reach_missing": [],
+           "n_props": 0, "seconds": 0.0, "rss_mb": 0.0, "wdir": wdir, "messages": [], "stats": {"steps": 0, "vccs": 0}}
+    t0 = time.time()
+    srcs = []
+    for pat in obl["source_globs"]:
+        srcs += sorted(_glob.glob(os.path.join(REPO, pat)))
+    srcs = [s for s in srcs if not re.search(obl.get("exclude", r"$^"), s)]
+    inc, fb = include_flags()
+    gb = os.path.join(wdir, "prog.gb")
+    cmd = ["goto-cc"] + inc + cpp_defs(obl) + srcs + ["-o", gb]
+    p = subprocess.run(cmd, cwd=wdir, stdout=subprocess.PIPE, stderr=subprocess.STDOUT)
+    open(os.path.join(wdir, "goto-cc.log"), "wb").write(p.stdout)
+    if p.returncode != 0 or not os.path.exists(gb):
+        res["messages"].append("goto-cc failed: " + p.stdout.decode("utf-8", "replace")[-1500:])
+        return res
+    q = subprocess.run(["goto-instrument", "--reachable-call-graph", gb], cwd=wdir, stdout=subprocess.PIPE, stderr=subprocess.DEVNULL)
+    edges = set()
+    for line in q.stdout.decode("utf-8", "replace").splitlines():
+        m = re.match(r"^(\S+) -> (\S+)$", line.strip())
+        if m:
+            edges.add((m.group(1), m.group(2)))
+    res["n_props"] = len(edges)
+    res["stats"] = {"steps": len(edges), "vccs": len(set(e[1] for e in edges))}
+    if not edges or not any(e[0] == "main" for e in edges):
+        res["status"] = "vacuous"
+        res["messages"].append("empty call graph / main not found")
+        return res
+    forb = set(obl["forbidden"])
+    allowed = set(tuple(e) for e in obl.get("allowed_edges", []))
+    for (a, b) in sorted(edges):
+        if b in forb and (a, b) not in allowed:
+            res["violations"].append({"cbmc_property": "callgraph.%s.%s" % (a, b), "description": "VP_PROP:" + obl.get("message", "forbidden function reachable") + ": %s -> %s" % (a, b),
+                                      "file": "", "function": a, "line": "", "status": "FAILURE"})
+    res["reach_ok"] = ["call_graph_%d_edges" % len(edges)]
+    res["status"] = "fail" if res["violations"] else "pass"
+    res["seconds"] = time.time() - t0
+    res["solver_seconds"] = 0.0
+    return res
+
+
 def run_obligation(pid, obl, tier):
     """returns a result dict"""
+    if obl.get("kind") == "callgraph":
+        return run_callgraph(pid, obl, tier)
     name = obl["name"]
     wdir = os.path.join(BUILD, pid, sanitize(name))
     shutil.rmtree(wdir, ignore_errors=True)
@@ -610,7 +662,7 @@ def run_property(pid, tier, only=None, jobs=None):
         os.makedirs(bundle)
         info = {"property": pid, "obligation": o["name"], "violated": v,
                 "bound": o.get("bound", ""), "tier": tier}
-        if n < 3 and not o.get("no_replay"):
+        if n < 3 and not o.get("no_replay") and o.get("kind") != "callgraph":
             trace, tpath = get_trace(o, r, v)
             if trace is not None:
                 vals = extract_values(trace)
@@ -690,8 +742,8 @@ def write_evidence(pid, plan, tier, obls, results, known_hit, reported, broken, 
         if len(samples) < 6:
             samples.append({
                 "obligation": o["name"],
-                "real_sources": o.get("sources", []) + o.get("included_sources", []),
-                "harness": o["harness"],
+                "real_sources": o.get("sources", []) + o.get("included_sources", []) + o.get("source_globs", []),
+                "harness": o.get("harness", "(none: static call-graph obligation)"),
                 "defines": o.get("defines", {}),
                 "unwind": o.get("unwind", 4),
                 "unwindset": o.get("unwindset", {}),
